@@ -68,6 +68,11 @@ class PNode(HasTraits):
     deep = Property(Int, observe="child.kids.items.value")
     msum = Property(Int, observe="kmap.items.value")
     ssum = Property(Int, observe="kset.items.value")
+    #: never given a named handler: only anytrait listeners hear about it
+    alone = Property(Int, observe="value")
+
+    def _get_alone(self):
+        return self.value * 3
 
     @cached_property
     def _get_total(self):
@@ -163,8 +168,17 @@ class World:
         for p in PROPS:
             root.on_trait_change(mk_otc(self.otc[p]), p)
             root.observe(mk_obs(self.obs[p]), p)
+        self.any_log = []
+        any_log = self.any_log
+
+        def h_any(obj, name, old, new):
+            if name == "alone":
+                any_log.append(new)
+        self.h_any = h_any
+        root.on_trait_change(h_any)
 
     def clear(self):
+        self.any_log.clear()
         for p in PROPS:
             self.otc[p].clear()
             self.obs[p].clear()
@@ -273,6 +287,18 @@ def run_history(ctx, hist):
             ctx.violation("C12:event-raises:%s" % ev[0], "event raised %r"
                           % (exc,), history=hist)
             return False, None
+        if last and ev[0] == "set_value" and ev[1] == 0:
+            want = w.pool[0].value * 3
+            ctx.tr()
+            if not w.any_log or w.any_log[-1] != want:
+                good = False
+                ctx.violation(
+                    "C12:not-announced:alone:anytrait:%s" % (w.copied
+                                                             or "orig"),
+                    "a property whose only listener is an anytrait handler "
+                    "changed to %r but the handler got %r" % (want,
+                                                              w.any_log),
+                    history=hist)
         if last and ev[0] != "copy":
             root = w.pool[0]
             after = {p: recompute(root, p) for p in PROPS}
